@@ -293,6 +293,9 @@ static void do_rt(void)
  *        "swp <enc> ok=<0|1> fail=<first failing item|-> frames=T nend=E left=L hash=<FNV-1a of A's frames> ref=<1|0|-> calls=dry/limit/consumed/got/novfBefore/novfAfter/PQ,..."
  *        P: d direct read, r read_overflow_frame, o overflow_append on empty carry, O overflow_append onto a
  *        non-empty carry, z nothing consumed;  Q: c create_overflow_frame, p append_overflow_frame, - none.
+ *        enc x / y: MIXED run, chunk j (0-based position in the spec list) goes through fe_process_int16 when j is
+ *        even (x) resp. odd (y) and through fe_process_float32 otherwise, all calls of a chunk alike; the call records
+ *        then carry a third letter i|f.  Output for enc i / f is unchanged.
  *        Items checked: tags of fe->overflow_samps after every call (cell i holds float32(sample/32768) of source
  *        sample pos-novf+i, bytes reversed iff fe->swap), fe->spch host-order after every call that produced a
  *        frame and after fe_end, B's per-call log == A's, B's frames bitwise == A's, and with dither off
@@ -311,7 +314,7 @@ static int sw_dither, sw_seed;
 #define SW_OTHER "big"
 #endif
 
-typedef struct { int dry, limit, got, nb, na; size_t cons; char p, q; } swcall_t;
+typedef struct { int dry, limit, got, nb, na; size_t cons; char p, q, e; } swcall_t;
 typedef struct {
     mfcc_t *out;
     int total, nend, ncalls, bad;
@@ -395,6 +398,8 @@ static void sw_run(fe_t *f, const char *who, int enc, const int16 *s16, const fl
         size_t len = strtoull(w[i], NULL, 10), rem = len;
         char *lp = colon ? colon + 1 : (char *)"-";
         int final = 0;
+        /* mixed runs: x = chunk j (position in the spec list) int16 when j is even, float32 when odd; y = opposite */
+        int cenc = (enc == 'x' || enc == 'y') ? ((((i - 3) % 2 == 0) == (enc == 'x')) ? 'i' : 'f') : enc;
         if (pos + len > N) { sw_fail(R, "bad-partition"); break; }
         for (;;) {
             int limit, dry, got, nb = f->num_overflow_samps;
@@ -406,7 +411,7 @@ static void sw_run(fe_t *f, const char *who, int enc, const int16 *s16, const fl
                 final = 1;
             }
             if (R->ncalls >= 4096) { sw_fail(R, "too-many-calls"); break; }
-            if (enc == 'i') {
+            if (cenc == 'i') {
                 blk = malloc(rem * sizeof(int16));
                 memcpy(blk, s16 + pos, rem * sizeof(int16));
                 dry = fe_process_int16(f, NULL, &nn, NULL, 0);
@@ -421,7 +426,7 @@ static void sw_run(fe_t *f, const char *who, int enc, const int16 *s16, const fl
                 if (*lp == ',') lp++;
             }
             if (total + (limit < dry ? limit : dry) > room) { sw_fail(R, "output-room-exhausted"); free(blk); break; }
-            if (enc == 'i') {
+            if (cenc == 'i') {
                 int16 *p = (int16 *)blk;
                 got = fe_process_int16(f, &p, &nn, r + total, limit);
                 if ((size_t)(p - (int16 *)blk) != before - nn) sw_fail(R, "%s-ptr-mismatch:call=%d", who, R->ncalls);
@@ -432,7 +437,7 @@ static void sw_run(fe_t *f, const char *who, int enc, const int16 *s16, const fl
             }
             free(blk);
             C = &R->calls[R->ncalls];
-            C->dry = dry; C->limit = limit; C->got = got; C->nb = nb; C->na = f->num_overflow_samps; C->cons = before - nn;
+            C->dry = dry; C->limit = limit; C->got = got; C->nb = nb; C->na = f->num_overflow_samps; C->cons = before - nn; C->e = (char)cenc;
             if (got <= 0) { C->p = C->cons > 0 ? (nb > 0 ? 'O' : 'o') : 'z'; C->q = '-'; }
             else {
                 int k, m = nb > 0 ? nb - shift : 0;
@@ -444,8 +449,8 @@ static void sw_run(fe_t *f, const char *who, int enc, const int16 *s16, const fl
             total += got > 0 ? got : 0;
             pos += before - nn;
             rem = nn;
-            sw_tags(f, who, enc, pos, R->ncalls, R);
-            if (got >= 1) sw_spch(f, who, enc, (size_t)(total - 1) * shift, size, R->ncalls, R);
+            sw_tags(f, who, cenc, pos, R->ncalls, R);
+            if (got >= 1) sw_spch(f, who, cenc, (size_t)(total - 1) * shift, size, R->ncalls, R);
             R->ncalls++;
             if (final || R->bad) break;
         }
@@ -454,7 +459,7 @@ static void sw_run(fe_t *f, const char *who, int enc, const int16 *s16, const fl
     if (!R->bad) {
         int nv = f->num_overflow_samps;
         R->nend = fe_end(f, r + total, endroom);
-        if (R->nend == 1) sw_spch(f, who, enc, (size_t)total * shift, nv, -1, R);
+        if (R->nend == 1) sw_spch(f, who, (enc == 'x' || enc == 'y') ? 'f' : enc, (size_t)total * shift, nv, -1, R);
         total += R->nend;
     }
     R->total = total;
@@ -552,6 +557,7 @@ static void do_swp(int n, char **w)
     for (i = 0; i < RA.ncalls; i++) {
         swcall_t *a = &RA.calls[i];
         printf("%s%d/%d/%zu/%d/%d/%d/%c%c", i ? "," : "", a->dry, a->limit, a->cons, a->got, a->nb, a->na, a->p, a->q);
+        if (enc == 'x' || enc == 'y') printf("%c", a->e);   /* mixed runs: the entry point used for this call */
     }
     printf("\n");
     free(RA.out); free(RB.out); RA.out = RB.out = NULL;
